@@ -220,6 +220,12 @@ def run(ctx):
         "from the real TC entry points) with the composed model directly; the userspace-matcher and first-match sides of the composition "
         "(C02.Props.routeK_eq_userspace, kernel_eq_first_match_spec, C01.Props.match_is_first_match, imported and proved in the same lake "
         "build) are tied to the Go code by C02's and C01's own checks, and H2 (installed domain bitmap = MatchDomainBitmap) by C10/C11",
+        "the control plane's consumers of the record run from a verbatim copy of their statements (head of handleConn in tcp.go; cache "
+        "probe / RetrieveRoutingResult / error switch / cache update of the UDP ingress task in control_plane.go), regenerated from /repo "
+        "on every run by consumer_glue (checks/c03.py): the surrounding code (DNS fast paths, handlePkt, goroutine dispatch) is not "
+        "executed; time.Now/Since/timers are virtual (testing/synctest), CLOCK_MONOTONIC is real",
+        "bpf_sk_assign / bpf_skb_change_type are recorded by the native driver (return values ignored by the programs), listen_socket_map "
+        "is a 3-slot table: the kernel's socket assignment and policy routing behind dae0peer are not modelled",
         "shim headers harness/c/headers (UAPI struct layouts, little-endian host = bpfel target)",
         "translators/fakebpf (synthetic bpf2go declarations so that the production bpf_utils.go compiles)",
         "bpf(2) map create/update/lookup of the sandbox kernel (only used to let the REAL RetrieveRoutingResult read the bytes the TC programs wrote)",
@@ -597,5 +603,8 @@ def run(ctx):
              "redirect target, rewritten frame, byte images of every touched conn_state/handoff/redirect_track/cookie entry, events, "
              "overflow counters) with the Lean step function; plus parse ops (fast / slow / combined parser on one frame and linear "
              "length), retr ops (real RetrieveRoutingResult on the stored bytes through kernel maps) and twin scenarios replayed with "
-             "different parse paths; distinct_nontrivial = distinct frame/parse op lines",
+             "different parse paths; peer / d0 ops (tproxy_dae0peer_ingress on the skb the previous frame left, tproxy_dae0_ingress on a "
+             "reply of dae, against the redirect_track the hooks filled); use ops (the regenerated head of handleConn / UDP ingress task "
+             "with the production endpoint pool and routing cache, under virtual time, on the stored bytes); "
+             "distinct_nontrivial = distinct frame/parse/d0 op lines + distinct (peer op, answer) pairs",
         evaluations=n_frames + n_parse + n_retr + n_peer + n_d0 + n_use, distinct=len(distinct))
